@@ -27,6 +27,7 @@ Definition obs_eqb (a b : obs) : bool :=
   | ORc c r k nr nc, ORc c' r' k' nr' nc' => (c =? c') && (r =? r') && (k =? k') && (nr =? nr') && (nc =? nc')
   | OFiles p cf n, OFiles p' cf' n' => String.eqb p p' && list_eqb chanfile_eqb cf cf' && (n =? n')
   | ONoFiles, ONoFiles => true
+  | OStartErr, OStartErr => true
   | OPanic, OPanic => true
   | _, _ => false
   end.
